@@ -411,6 +411,33 @@ func ruleConfMode(p *Prog, r *Report) {
 			"a command is emitted without updating subCmdOf: a following sub-command may be issued in the wrong configuration mode")
 	}
 	r.floor("R08.m", "callers of addChange", n, 6)
+	// each helper really maintains the mode variable around every emission
+	for hn := range helpers {
+		h := p.Fn(hn)
+		if h == nil {
+			r.fail("R08.m", "anchor|"+hn, "", "helper not found", "")
+			continue
+		}
+		isUpdate := func(in ssa.Instruction) bool {
+			if st, ok := in.(*ssa.Store); ok {
+				if fa, ok := st.Addr.(*ssa.FieldAddr); ok && fieldName(fa) == "cisco.State.subCmdOf" {
+					return true
+				}
+			}
+			if ci, ok := in.(ssa.CallInstruction); ok {
+				if f := ci.Common().StaticCallee(); f != nil && shortName(f) == "(*cisco.State).setCmdConfMode" {
+					return true
+				}
+			}
+			return false
+		}
+		for _, cs := range callsTo(h, "(*cisco.State).addChange") {
+			pre := !reachAvoiding(h, cs.In, isUpdate)
+			post := mustPassBeforeReturn(p, cs.In, isUpdate, nil) == ""
+			r.add("R08.m", "mode-updated|"+hn, p.ipos(cs.In), "emission in "+hn+" is accompanied by an update of the config-mode variable on every path (before or after it)", pre || post,
+				"a command is emitted on a path that leaves subCmdOf stale: a later sub-command is sent without re-entering its parent's mode")
+		}
+	}
 	// direct stores to Changes
 	var fld []*ssa.Store
 	for _, fn := range allModFuncs(p) {
@@ -740,4 +767,33 @@ func naturalLoopBody(h *ssa.BasicBlock) map[*ssa.BasicBlock]bool {
 		walk(t)
 	}
 	return body
+}
+
+// reachAvoiding: target can be reached from the function entry along a path on
+// which no instruction satisfies avoid (checked before target).  For a target
+// inside a loop only the first arrival matters (the walk is over blocks).
+func reachAvoiding(fn *ssa.Function, target ssa.Instruction, avoid func(ssa.Instruction) bool) bool {
+	seen := map[*ssa.BasicBlock]bool{}
+	var walk func(b *ssa.BasicBlock) bool
+	walk = func(b *ssa.BasicBlock) bool {
+		if seen[b] {
+			return false
+		}
+		seen[b] = true
+		for _, in := range b.Instrs {
+			if in == target {
+				return true
+			}
+			if avoid(in) {
+				return false
+			}
+		}
+		for _, s := range b.Succs {
+			if walk(s) {
+				return true
+			}
+		}
+		return false
+	}
+	return walk(fn.Blocks[0])
 }
